@@ -25,6 +25,17 @@ using namespace ASAM::CMP;
 namespace lib
 {
 
+static void (*g_preCall)() = nullptr;
+void setPreCallHook(void (*hook)())
+{
+    g_preCall = hook;
+}
+static inline void preCall()
+{
+    if (g_preCall)
+        g_preCall();
+}
+
 namespace
 {
 
@@ -257,6 +268,7 @@ Obs observePacket(const Packet& p, bool typedViews)
 
 Obs observe(const PacketRef& ref, bool typedViews)
 {
+    preCall();
     return observePacket(*static_cast<const Packet*>(ref.get()), typedViews);
 }
 
@@ -442,6 +454,7 @@ static Packet buildPacket(const MsgSpec& m)
 std::vector<Bytes> Enc::encode(const std::vector<MsgSpec>& batch, size_t minBytes, size_t maxBytes, int mode)
 {
     DataContext ctx;
+    preCall();
     ctx.minBytesPerMessage = minBytes;
     ctx.maxBytesPerMessage = maxBytes;
     if (mode == 2 && batch.size() != 1)
@@ -494,6 +507,7 @@ Dec::~Dec()
 }
 std::vector<PacketRef> Dec::decode(const uint8_t* data, size_t size)
 {
+    preCall();
     auto v = d->dec.decode(data, size);
     std::vector<PacketRef> out;
     out.reserve(v.size());
@@ -521,6 +535,7 @@ std::vector<Pending> Dec::pending() const
 }
 std::vector<PacketRef> Dec::tecmpDecode(const uint8_t* data, size_t size)
 {
+    preCall();
     auto v = TECMP::Decoder::Decode(data, size);
     std::vector<PacketRef> out;
     for (auto& p : v)
@@ -543,6 +558,7 @@ Stat::~Stat()
 }
 void Stat::update(const PacketRef& p)
 {
+    preCall();
     d->st.update(*static_cast<const Packet*>(p.get()));
 }
 void Stat::clear()
@@ -700,6 +716,7 @@ Builder::~Builder()
 
 void Builder::setHeaderFields(const BuildFields& f)
 {
+    preCall();
     switch (d->cls)
     {
         case wire::K_CAN:
@@ -783,6 +800,7 @@ void Builder::setHeaderFields(const BuildFields& f)
 
 void Builder::setData(const BuildData& bd)
 {
+    preCall();
     switch (d->cls)
     {
         case wire::K_CAN:
